@@ -275,6 +275,24 @@ def r5(ctx):
     ctx.inst(R, "send:broadcast-needs-option", ok and okp, s.span, "broadcast is sent only with SO_BROADCAST, otherwise PermissionDenied" if ok and okp else
              "broadcast fan-out is not guarded by is_broadcast_enabled / does not fail with PermissionDenied")
     flt = any(True for fb in fam for _ in fb.calls("turmoil::host::Udp::is_port_assigned"))
+    # ... and nothing else decides who is a target: the sender's own host is a host like any other (a listener next to the broadcaster, or
+    # the broadcasting socket itself when it is bound to the port, gets its copy)
+    for fb in fam:
+        for bb, t in fb.calls("turmoil::host::Udp::is_port_assigned"):
+            if fb.id == s.id:
+                continue
+            extra = sorted({t2["f"] for _, t2 in fb.calls(re.compile(r"PartialEq.*::(eq|ne)$|IpAddr::is_loopback$"))})
+            ctx.inst(R, f"send:broadcast-filter-only-the-port:{fb.id.rsplit('::', 1)[1]}", not extra, t["s"], "a host is a broadcast target exactly when it has the port bound" if not extra else
+                     f"the broadcast target filter also compares addresses ({', '.join(extra)}): a host that has the port bound - the sender's own - is left out and its sockets never get the datagram")
+    # the loop-back copy of a multicast datagram is governed by the *member's* option (IP_MULTICAST_LOOP of the receiving socket's port)
+    for fb in fam:
+        for bb, t in fb.calls("turmoil::host::Udp::is_multicast_loop_enabled"):
+            at = Slicer(ctx.w).atoms(fb, t["args"][1])
+            from_src = sorted(a for a in at if re.match(r"arg:\d+:src@", a))
+            okm = not from_src and any(re.match(r"arg:\d+:dst@", a) or "destination_addresses" in a for a in at)
+            ctx.inst(R, "send:multicast-loop-option-of-the-member", okm, t["s"], "the member's own loop option decides its local copy" if okm else
+                     "is_multicast_loop_enabled is asked about the *sending* socket's port: a member on the sender's host misses (or gets) the datagram according to an option "
+                     "another socket set")
     ctx.inst(R, "send:broadcast-targets-bound-ports", flt, s.span, "broadcast targets = hosts with the destination port bound" if flt else "broadcast fan-out no longer filters hosts by the bound port")
     ctx.floor(R, 2)
 
